@@ -61,6 +61,11 @@ theorem array_lits_ok : Extracted.Config.tomlEncodeSliceStrings = [[91, 93]] ∧
     Extracted.Config.tomlEncodeSliceAsArrayStrings = [nats Config.commaSpace, [44, 10]] ∧
     Extracted.Config.tomlEncodeSliceAsArrayChars = [91, 10, 10, 93] := by decide
 
+/-- `LoadConfigFile` hands `LoadConfigBytes` the whole file: its argument is bound once, by `os.ReadFile` (no bounded
+or partial read between the file and `parseSub`'s input), and the rest of the function is unchanged -/
+theorem load_file_reads_whole_file : Extracted.Config.loadConfigFileReadCalls = ["os.ReadFile"] ∧
+    Extracted.Config.loadConfigFileBody = Expected.Config.loadConfigFileBody := ⟨by decide, rfl⟩
+
 /-- `dawn get` and `dawn tidy` are `Config.rewrite`: between `LoadConfigFile` and `WriteConfigFile` the only thing
 assigned is the field `Requirements` of the loaded configuration, that variable is never replaced as a whole, and
 it is what `WriteConfigFile` receives -/
